@@ -102,9 +102,10 @@ def run(ctx):
 def _is_epilogue(sa):
   """sa = select_arms(t): the all-padding epilogue is exactly `where(padding_start == 0, 0, X)` (canonical polarity:
   a `!=` test arrives here as `==` with the arms swapped)"""
-  if sa is None or not is_const(strip_casts(sa[2]), 0.0, 0):
+  z = strip_casts(sa[2]) if sa is not None else None
+  if z is None or not (is_const(z, 0.0, 0) or is_ext_call(z, 'jax.numpy.zeros_like', 'jax.numpy.zeros')):
     return False
-  c = sa[1]
+  c = strip_casts(sa[1])
   if c.op != 'cmp' or c.args[0] != '==':
     return False
   a, b = strip_casts(c.args[1]), strip_casts(c.args[2])
